@@ -11,7 +11,7 @@ import (
 // OverlayFromPatch applies a unified diff (git format) in memory to files under
 // repoDir and returns the resulting contents keyed by absolute path. Nothing on
 // disk is modified. Hunks must apply exactly (context and removed lines must
-// match, a small line offset is tolerated); otherwise an error is returned.
+// match; the nearest matching position is used, as git apply does); otherwise an error is returned.
 func OverlayFromPatch(repoDir, patchFile string) (map[string][]byte, error) {
 	data, err := os.ReadFile(patchFile)
 	if err != nil {
@@ -84,7 +84,15 @@ func OverlayFromPatch(repoDir, patchFile string) (map[string][]byte, error) {
 				pos = 0
 			}
 			found := -1
-			for _, d := range []int{0, 1, -1, 2, -2, 3, -3, 5, -5, 8, -8, 12, -12, 20, -20, 40, -40} {
+			// nearest position at which the old lines match (like git apply's offset search)
+			var ds []int
+			for d := 0; d <= len(src); d++ {
+				ds = append(ds, d)
+				if d > 0 {
+					ds = append(ds, -d)
+				}
+			}
+			for _, d := range ds {
 				p := pos + d
 				if p < 0 || p+len(before) > len(src) {
 					continue
